@@ -57,7 +57,7 @@ inductive SlotEv
 deriving Repr
 
 /-- `for slot in range(2, concurrent + 2): self._slots.put_nowait(slot)` -/
-def Slots.init (n : Nat) : Slots := ⟨List.range' Gen.slotBase n, [], [], fun _ => .acquired⟩
+def Slots.init (n : Nat) : Slots := ⟨List.range' Gen.slotBase (Gen.slotCount n), [], [], fun _ => .acquired⟩
 
 def setAt {α : Type} (f : Nat → α) (k : Nat) (v : α) : Nat → α := fun x => if x = k then v else f x
 
@@ -304,8 +304,10 @@ def Fin.step (underLock : Bool) (L : List Loader) (σ : Fin) : FinEv → Option 
     | _ => none
   | .joined d =>
     -- `for future in as_completed(writer_futures): future.result()` is over
+    -- (`Gen.loaderJoinsWritersFirst`: the finalisation loop starts only after that loop)
     match lookupLoader L d, σ.phase d with
-    | some l, .writing [] => some { σ with phase := setAt σ.phase d (.fin l.paths) }
+    | some l, .writing todo =>
+      if todo.isEmpty || !Gen.loaderJoinsWritersFirst then some { σ with phase := setAt σ.phase d (.fin l.paths) } else none
     | _, _ => none
   | .remove d f =>
     match σ.phase d with
@@ -351,5 +353,53 @@ def poppingFile : LPhase → Option Nat
 /-- the loader has joined all its writer jobs -/
 def pastWriting : LPhase → Bool
   | .dl => false | .writing _ => false | _ => true
+
+
+/-! ## S1′ — slot requests from loader threads and the life of the event loop
+
+`_acquire_slot_threadsafe` blocks its thread in `run_coroutine_threadsafe(self._slots.get(), loop).result()`; the request is served
+by the event loop.  `asyncio.run` stops the loop as soon as the operation has returned.  Counters only (threads are anonymous). -/
+
+structure Life where
+  free : Nat        -- slots in the queue
+  held : Nat        -- slots held by a thread whose transfer is in flight
+  waiting : Nat     -- threads blocked waiting for a slot
+  queued : Nat      -- downloads still in the executor's queue
+  failed : Bool     -- a loader raised
+  returned : Bool   -- the operation returned to `asyncio.run`
+  closed : Bool     -- the loop does not run callbacks any more
+  lost : Nat        -- slots released after the loop stopped
+deriving Repr, DecidableEq
+
+inductive LifeEv
+  | begin            -- a loader thread takes the next queued download and asks for a slot
+  | grant            -- the loop serves a request
+  | finish (ok : Bool) -- a transfer ends; the slot is handed back (`call_soon_threadsafe(put_nowait)`)
+  | dropQueued       -- (patched code) `loader.shutdown(cancel_futures=True)` after a failure
+  | ret              -- the operation returns (normally: everything done; after a failure: see `joins`)
+  | cancelWaiter     -- `asyncio.run` cancels a pending `_slots.get()` task; that thread's job fails
+  | close            -- the loop stops
+deriving Repr, DecidableEq
+
+def Life.init (n jobs : Nat) : Life := ⟨n, 0, 0, jobs, false, false, false, 0⟩
+
+/-- `joins` = after a failure the operation drops the queued downloads and waits for the running loaders before it re-raises
+(`Gen.restoreJoinsLoadersOnFailure`) -/
+def Life.step (joins : Bool) (σ : Life) : LifeEv → Option Life
+  | .begin => if 0 < σ.queued then some { σ with queued := σ.queued - 1, waiting := σ.waiting + 1 } else none
+  | .grant => if !σ.closed ∧ 0 < σ.waiting ∧ 0 < σ.free then some { σ with waiting := σ.waiting - 1, free := σ.free - 1, held := σ.held + 1 } else none
+  | .finish ok =>
+    if 0 < σ.held then
+      let σ' := { σ with held := σ.held - 1, failed := σ.failed || !ok }
+      if σ.closed then some { σ' with lost := σ.lost + 1 } else some { σ' with free := σ.free + 1 }
+    else none
+  | .dropQueued => if joins ∧ σ.failed ∧ !σ.returned then some { σ with queued := 0 } else none
+  | .ret =>
+    if σ.returned then none
+    else if σ.queued = 0 ∧ σ.waiting = 0 ∧ σ.held = 0 then some { σ with returned := true }
+    else if σ.failed ∧ !joins then some { σ with returned := true }      -- `gather` re-raises the first exception at once
+    else none
+  | .cancelWaiter => if σ.returned ∧ !σ.closed ∧ 0 < σ.waiting then some { σ with waiting := σ.waiting - 1, failed := true } else none
+  | .close => if σ.returned ∧ !σ.closed then some { σ with closed := true } else none
 
 end Replicat.Sched
